@@ -254,6 +254,14 @@ func c18run(cfg gatherCfg) c18verdict {
 
 				break
 			}
+			if cfg.UDPMuxSrflx != "" {
+				// the socket is borrowed from the mux: its base is the mux's listen address, range and filters do not apply
+				if got := net.JoinHostPort(ra.Address, fmt.Sprint(ra.Port)); got != cfg.UDPMuxSrflx {
+					bad("", "reflexive candidate gathered through UDPMuxSrflx (%s) has base %s: %s", cfg.UDPMuxSrflx, got, desc)
+				}
+
+				break
+			}
 			if cfg.PortMin != 0 && (ra.Port < cfg.PortMin || ra.Port > cfg.PortMax) {
 				bad("", "base port %d of a reflexive candidate outside the configured range [%d,%d]: %s", ra.Port, cfg.PortMin, cfg.PortMax, desc)
 			}
@@ -385,7 +393,7 @@ func c18configs(quick bool) []gatherCfg {
 		busy     bool
 	}
 	ranges := []pr{{0, 0, false}, {5000, 5000, false}, {5000, 5002, false}, {5000, 5001, true}}
-	muxes := [][2]string{{"", ""}, {"10.0.0.1:7000", ""}, {"", "0.0.0.0:7001"}, {"", "10.0.0.1:7001"}}
+	muxes := [][3]string{{"", "", ""}, {"10.0.0.1:7000", "", ""}, {"", "0.0.0.0:7001", ""}, {"", "10.0.0.1:7001", ""}, {"", "", "10.0.0.1:7002"}}
 	var out []gatherCfg
 	for _, ifs := range ifaceSets {
 		for _, nt := range netTypes {
@@ -400,7 +408,10 @@ func c18configs(quick bool) []gatherCfg {
 											continue
 										}
 										cfg := gatherCfg{Ifaces: ifs, NetTypes: nt, CandTypes: ct, PortMin: r.min, PortMax: r.max, BusyPorts: r.busy,
-											IfaceFilter: ifl, IPFilterDeny: ipf, Loopback: lb, MDNS: md, UDPMux: mx[0], TCPMux: mx[1]}
+											IfaceFilter: ifl, IPFilterDeny: ipf, Loopback: lb, MDNS: md, UDPMux: mx[0], TCPMux: mx[1], UDPMuxSrflx: mx[2]}
+										if mx[2] != "" && (len(ct) == 1 && ct[0] == "host") {
+											continue // the srflx mux only matters when reflexive candidates are gathered
+										}
 										if len(ct) > 1 || ct[0] == "srflx" {
 											cfg.URLs = []string{"stun:198.51.100.1:3478"}
 										}
